@@ -202,3 +202,15 @@ fn subscription_options_are_at_the_standards_bit_positions() {
     pos += 1;
     assert_eq!(pos, p.len());
 }
+
+#[test]
+fn will_qos_and_retain_bits_are_zero_without_a_will() {
+    let w = connect_bytes(ConnectOpts::new().client_identifier("c").will_qos(QoS::AtLeastOnce).will_retain(true));
+    let f = frames(&w);
+    let b = &f[0];
+    let mut pos = 1;
+    rd_vbi(b, &mut pos);
+    rd_bin(b, &mut pos);
+    pos += 1;
+    assert_eq!(b[pos] & 0x3c, 0, "Will Flag 0 requires Will QoS 0 and Will Retain 0 [MQTT-3.1.2-11, -13], flags = {:#04x}", b[pos]);
+}
